@@ -493,9 +493,12 @@ class CombinedCategoricalDissimilarity(AbstractDissimilarity):
         if pos_dissim is None:
             pos_dissim = PositionalSporadicDissimilarity(delta_empty)
         if cat_dissim is None:
-            cat_dissim = AbsoluteCategoricalDissimilarity()
+            cat_dissim = AbsoluteCategoricalDissimilarity(delta_empty)
+        elif cat_dissim.delta_empty != np.float32(delta_empty):
+            # the compiled kernel captured the component's former delta_empty
+            cat_dissim.delta_empty = np.float32(delta_empty)
+            cat_dissim.d_mat = cat_dissim.compile_d_mat()
 
-        cat_dissim.delta_empty = delta_empty
         self.positional_dissim: AbstractDissimilarity = pos_dissim
         self.categorical_dissim: CategoricalDissimilarity = cat_dissim
         self.alpha = alpha
